@@ -171,6 +171,7 @@ func driveIterMap(opt *Options) error {
 	for v := 0; v < 4; v++ {
 		driveIterMapManyIters(tw, rnd, v)
 	}
+	driveIterMapCycles(tw, rnd)
 	storms := 12
 	if opt.N > 200 {
 		storms = 100
@@ -509,4 +510,45 @@ func driveIterMapGcStorm(tw *TraceWriter, rnd *rand.Rand) bool {
 		}
 	}
 	return do(Step{"op": "Close", "i": 100})
+}
+
+// driveIterMapCycles: an iterator stays parked on a removed entry while one other key is added and removed
+// thousands of times (counters, thresholds and clean-up passes of the implementation see a long history on a
+// tiny map); then the iterator is closed: nothing of the history may be left, Get / Len / First / a full
+// iteration report the live entries only.
+func driveIterMapCycles(tw *TraceWriter, rnd *rand.Rand) {
+	o := newImObj()
+	tw.Emit(map[string]any{"op": "New"})
+	nextID := 1
+	do := func(s Step) bool { return imDo(tw, o, &nextID, s) }
+	do(Step{"op": "Add", "k": "a", "v": nextID})
+	do(Step{"op": "Add", "k": "b", "v": nextID})
+	do(Step{"op": "Iterator", "i": 1})
+	if rnd.Intn(2) == 0 {
+		do(Step{"op": "Next", "i": 1})
+	}
+	do(Step{"op": "Remove", "k": "a"})
+	do(Step{"op": "Remove", "k": "b"})
+	n := 4200 + rnd.Intn(1200)
+	for i := 0; i < n; i++ {
+		if !do(Step{"op": "Add", "k": "x", "v": nextID}) || !do(Step{"op": "Remove", "k": "x"}) {
+			return
+		}
+		if i%1000 == 999 {
+			do(Step{"op": "Len"})
+			do(Step{"op": "Get", "k": "a"})
+		}
+	}
+	do(Step{"op": "Add", "k": "y", "v": nextID})
+	do(Step{"op": "Close", "i": 1})
+	for _, k := range []string{"a", "b", "x", "y"} {
+		do(Step{"op": "Get", "k": k})
+	}
+	do(Step{"op": "Len"})
+	do(Step{"op": "First"})
+	do(Step{"op": "Iterator", "i": 2})
+	for j := 0; j < 3; j++ {
+		do(Step{"op": "Next", "i": 2})
+	}
+	do(Step{"op": "Close", "i": 2})
 }
